@@ -163,7 +163,7 @@ def run(tier, seed):
     from skepticoin.networking import messages as M
     rng = ck.rng
     keys = chaingen.Keys()
-    nsessions = 250 if tier == 'quick' else 3000
+    nsessions = 250 if tier == 'quick' else 12000
     frame_reqs, frame_wants = [], []
     with chaingen.Env(period=50) as env:
         tg = chaingen.TreeGen(env, keys, rng)
